@@ -4,6 +4,7 @@ import (
 	"fmt"
 	"go/token"
 	"go/types"
+	"os"
 	"strings"
 
 	"cffverif/internal/load"
@@ -181,8 +182,28 @@ func (m *model) ruleWorker(s *report.Sink) {
 			at := st.at
 			switch {
 			case lf.val == rc.in.(ssa.Value):
-				s.OK("S14", "worker|Err = value returned by run", m.ipos(at), "the job's own error, unwrapped")
-				cats = append(cats, cat{at, "run"})
+				// between the call and the assignment nothing but "the returned error is not nil" may decide
+				extra := 0
+				atCall := map[string]bool{}
+				for _, a := range userAtoms(m.atomsOf(rcRoot)) {
+					atCall[a.String()] = true
+				}
+				for _, a := range append(userAtoms(m.atomsOf(at)), lf.atoms...) {
+					if atCall[a.String()] {
+						continue
+					}
+					if ok, pol := eqNil(a, func(v ssa.Value) bool { return v == rc.in.(ssa.Value) }); ok && !pol {
+						continue
+					}
+					extra++
+					if os.Getenv("CFFVERIF_DEBUG") != "" {
+						fmt.Fprintln(os.Stderr, "S14 extra atom:", a.String())
+					}
+				}
+				s.Check(extra == 0, "S14", "worker|Err = value returned by run", m.ipos(at), "the job's own error, unwrapped", "the value returned by run is posted only under a further condition: a failed job can count as succeeded")
+				if extra == 0 {
+					cats = append(cats, cat{at, "run"})
+				}
 			case m.isJobCtxErr(lf.val, jobKey):
 				nn := find(ac, func(a atom) bool {
 					ok, pol := eqNil(a, func(v ssa.Value) bool { return m.isJobCtxErr(v, jobKey) })
@@ -207,7 +228,17 @@ func (m *model) ruleWorker(s *report.Sink) {
 	}
 	// every path of an iteration that does not run the job sets a non-nil Err
 	{
-		avoid := map[*ssa.BasicBlock]bool{m.wLoopHdr: true, rcRoot.Block(): true}
+		avoid := map[*ssa.BasicBlock]bool{m.wLoopHdr: true}
+		ranStored := false
+		for _, c := range cats {
+			ranStored = ranStored || c.kind == "run"
+		}
+		if !ranStored {
+			s.Bad("S14", "worker|Err = value returned by run#posted", m.ipos(rcRoot), "the value returned by the job's run function is not posted as the result's error: a failed job counts as succeeded")
+		} else {
+			// the path through the call is accounted for by that assignment (it may be skipped only for a nil error)
+			avoid[rcRoot.Block()] = true
+		}
 		for _, c := range cats {
 			if c.kind == "ctx" || c.kind == "sentinel" || c.kind == "run" {
 				avoid[c.at.Block()] = true
